@@ -131,6 +131,9 @@ func sysH(s *simrt.Sim, t *simrt.Task, r *simrt.Req) simrt.Status {
 			s.EvS(t, "sys", fmt.Sprintf("#%d %s(%s) = %d errno=%d %s", n, rec.Op, args, ret, int(errno), fault))
 		}
 	}
+	if k.AfterSyscall != nil && !k.Quiet {
+		k.AfterSyscall(n, opNames[op])
+	}
 	return simrt.Done
 }
 
